@@ -341,7 +341,7 @@ def release_waiter_unit(u: U):
     check_all(u, "C07.inv.release_waiter", I7(c, keys))
 
 
-@unit("C07", "wait_for_slot", functions=[f"{MOD}:{CLS}._wait_for_available_connection"])
+@unit("C07", "wait_for_slot", functions=[f"{MOD}:{CLS}._wait_for_available_connection"], also=("C18",))
 def wait_for_slot_unit(u: U):
     """_wait_for_available_connection: the waiter is queued before suspending, removed on every exit, the function
     returns only when a slot is free (checked after the last suspension), and a consumed wake-up is never lost."""
@@ -428,6 +428,8 @@ def wait_for_slot_unit(u: U):
         still = any(x is mine for x in q.val.added + q.val.front) if isinstance(q.val, SFutQueue) else False
         u.check("C07.leak.waiter_removed", Or(Not(mk_bool(q.present)), not still),
                 "the caller's future is removed from the queue on every exit (normal, error, cancellation)")
+        u.check("C18.residue.waiter_removed", Or(Not(mk_bool(q.present)), not still),
+                "a request that times out or is cancelled while waiting for a pool slot leaves no waiter entry behind")
         u.check("C07.leak.no_empty_queue_kept", Or(Not(mk_bool(q.present)), q.val.length() > 0) if isinstance(q.val, SFutQueue) else True,
                 "an emptied per-key waiter queue is deleted")
     if out.ok:
@@ -515,7 +517,7 @@ def get_unit(u: U):
             "a failure after the connection was accounted releases it again")
 
 
-@unit("C07", "connect", functions=[f"{MOD}:{CLS}.connect"])
+@unit("C07", "connect", functions=[f"{MOD}:{CLS}.connect"], also=("C18",))
 def connect_unit(u: U):
     """connect(): a placeholder reserves the slot in the same atomic section as the capacity test, stays counted
     while the connection is being established, is released on every failure / cancellation, and is swapped for
@@ -613,6 +615,8 @@ def connect_unit(u: U):
         if not closed_path:
             u.check("C07.leak.placeholder_released", len(released) == 1 and released[0][1] is p and released[0][0] is ko[K],
                     "every failure or cancellation after the reservation releases the placeholder exactly once")
+            u.check("C18.residue.slot_freed", len(released) == 1 and released[0][1] is p and released[0][0] is ko[K],
+                    "a connect that times out, fails or is cancelled frees its pool slot exactly once")
 
 
 def c_live():
